@@ -1,4 +1,5 @@
 import Blue.Driver.Util
+import Blue.Driver.C15
 import Blue.Driver.C05
 import Blue.Driver.C16
 import Blue.Driver.C11
@@ -15,6 +16,8 @@ def dispatch (toks : List String) : String :=
   | "tk2" :: rest => Blue.Driver.C16.K2.handle rest
   | "gc" :: rest => Blue.Driver.C05.handleGc rest
   | "split" :: rest => Blue.Driver.C05.handleSplit rest
+  | "wire" :: rest => Blue.Driver.C15.handleWire rest
+  | "proto" :: rest => Blue.Driver.C15.handleProto rest
   | _ => "bad-op"
 
 partial def loop (h : IO.FS.Stream) (out : IO.FS.Stream) : IO Unit := do
